@@ -49,7 +49,8 @@ CONSTANTS Mode,      \* "c15" | "c16" | "c28"
           InitAll,   \* 0: start empty; n > 0: Init enumerates all datasets of the first n of f[1], g[1], f[2]
           Warm,      \* the first Warm steps only load data (imports / sets)
           ClassSet,  \* action classes taken (a subset of the mode's classes)
-          LeafKinds  \* C15 leaves generated: subset of {"row", "rowt", "cond", "empty"}
+          LeafKinds, \* C15 leaves generated: subset of {"row", "rowt", "cond", "empty"}
+          Script     \* "none": free choice of classes; a named script fixes the class of each successive step
 
 VARIABLES db, stack, cur, cls, sub, hist
 vars == <<db, stack, cur, cls, sub, hist>>
@@ -339,6 +340,16 @@ SetBit ==
        WriteStep([op |-> "Set", f |-> fld, r |-> r, c |-> c, ch |-> c \notin db.sets[fld][r], cmp |-> TRUE],
                  WSet(db, fld, r, c))
 
+\* Set of a bit that is already stored (changed = false). The column may have received the
+\* bit without any Set/import of that column (Store of a shifted row): the Set still is a
+\* write of the column, so it belongs to the existence set afterwards.
+ReSet ==
+    \E fld \in SetFields, r \in Rws, c \in Cols :
+       /\ c \in db.sets[fld][r]
+       /\ (\E f2 \in SetFields, r2 \in Rws : (db.sets[f2][r2] \cap Cols) \ db.ex # {}) => c \notin db.ex
+       /\ WriteStep([op |-> "Set", f |-> fld, r |-> r, c |-> c, ch |-> FALSE, cmp |-> TRUE, newcol |-> c \notin db.ex],
+                    WSet(db, fld, r, c))
+
 SetOther ==
     \/ \E r \in Rws, c \in Cols, ts \in 0..NT :
          WriteStep([op |-> "SetT", f |-> "t", r |-> r, c |-> c, ts |-> ts,
@@ -372,15 +383,16 @@ Import ==
                     WImport(db, fld, r, S))
 
 \* "push2" / "apply2" are aliases: they double the weight of expression building in simulation
-C15Classes == {"push", "push2", "apply", "apply2", "unary", "set", "setother", "clear", "rowwrite", "import"}
+C15Classes == {"push", "push2", "apply", "apply2", "unary", "set", "reset", "setother", "clear", "rowwrite", "import"}
 C15Enabled(k) ==
     IF Len(hist) < Warm THEN k \in {"import", "setother"}
     ELSE CASE k \in {"push", "push2"}   -> Len(stack) < MaxStack
            [] k \in {"apply", "apply2"} -> stack # << >> /\ \E n \in 1..MaxArity : n <= Len(stack) /\ \A i \in (Len(stack) - n + 1)..Len(stack) : stack[i].d < MaxD
            [] k = "unary" -> stack # << >>
+           [] k = "reset" -> \E fld \in SetFields, r \in Rws : db.sets[fld][r] \cap Cols # {}
            [] OTHER -> TRUE
 C15Act(k) ==
-    CASE k \in {"push", "push2"} -> Push [] k \in {"apply", "apply2"} -> Apply [] k = "unary" -> Unary [] k = "set" -> SetBit
+    CASE k \in {"push", "push2"} -> Push [] k \in {"apply", "apply2"} -> Apply [] k = "unary" -> Unary [] k = "set" -> SetBit [] k = "reset" -> ReSet
       [] k = "setother" -> SetOther [] k = "clear" -> ClearBit [] k = "rowwrite" -> RowWrite [] OTHER -> Import
 
 (***************************************************************************)
@@ -414,6 +426,9 @@ ChildSeqs ==
          \cup {<<x, y, z>> : x \in plain, y \in plain, z \in plain}
 
 PlainChildren(chs) == \A i \in 1..Len(chs) : chs[i].lim < 0 /\ chs[i].col < 0
+
+Triples == LET plain == {Child(fld, 0 - 1, 0 - 1) : fld \in {"f", "g", "t"}}
+           IN {<<x, y, z>> : x \in plain, y \in plain, z \in plain}
 
 GroupByQ ==
     LET chs == sub[1]
@@ -488,6 +503,12 @@ NextPage ==
     /\ UNCHANGED <<db, stack>>
 
 \* the loop is over: forget the cursor (silent part of the next Select)
+ImportT ==
+    \E r \in Rws, S \in SUBSET Cols :
+       /\ S # {} /\ Cardinality(S) <= MaxBatch
+       /\ WriteStep([op |-> "Import", f |-> "t", r |-> r, S |-> S, ch |-> TRUE, cmp |-> FALSE],
+                    [db EXCEPT !.tb = @ \cup {<<r, c, 0>> : c \in S}, !.ex = @ \cup S])
+
 C16Write ==
     \/ SetBit \/ ClearBit
     \/ \E r \in Rws, c \in Cols, ts \in 0..NT :
@@ -498,13 +519,16 @@ C16Write ==
          WriteStep([op |-> "ClearRow", f |-> fld, r |-> r, ch |-> RowOf(db, fld, r) # {}, cmp |-> TRUE],
                    WClearRow(db, fld, r))
 
-C16Classes == {"write", "import", "rows", "groupby", "minmax", "startrows", "startgroup", "page"}
+\* "groupby3" / "startgroup3": GroupBy over three plain child Rows calls (the deep iterator
+\* paths: wrap-around of the middle field, previous rows absent from a shard)
+C16Classes == {"write", "import", "importt", "rows", "groupby", "groupby3", "minmax", "startrows", "startgroup", "startgroup3", "page"}
 C16Enabled(k) ==
-    IF Len(hist) < Warm THEN k \in {"import", "write"}
+    IF Len(hist) < Warm THEN k \in {"import", "importt", "write"}
     ELSE IF cur.on /\ ~CurDone THEN k = "page"          \* a paging loop runs to exhaustion without interleaving
     ELSE k # "page"
 C16Act(k) ==
-    CASE k = "write" -> C16Write [] k = "import" -> Import [] k = "rows" -> RowsQ [] k = "groupby" -> GroupByQ
+    CASE k = "write" -> C16Write [] k = "import" -> Import [] k = "importt" -> ImportT [] k = "rows" -> RowsQ
+      [] k \in {"groupby", "groupby3"} -> GroupByQ [] k = "startgroup3" -> StartGroup
       [] k = "minmax" -> MinMaxQ [] k = "startrows" -> StartRows [] k = "startgroup" -> StartGroup [] OTHER -> NextPage
 
 (***************************************************************************)
@@ -613,15 +637,21 @@ Act(k)     == IF Mode = "c15" THEN C15Act(k) ELSE IF Mode = "c16" THEN C16Act(k)
 \* C16 GroupBy: the child Rows calls and the filter; C28 writes: the path assignment
 SubChoices(k) ==
     IF Mode = "c16" /\ k \in {"groupby", "startgroup"} THEN ChildSeqs \X Filters
+    ELSE IF Mode = "c16" /\ k \in {"groupby3", "startgroup3"} THEN Triples \X {<< >>, <<IRow("f", 1)>>, <<IRow("g", 1)>>}
     ELSE IF Mode = "c16" /\ k = "rows" THEN RowsSubs
     ELSE IF Mode = "c16" /\ k = "startrows" THEN {x \in RowsSubs : x[1] # "e"}
     ELSE IF Mode = "c28" /\ k \in {"wset", "wmx", "wtime", "wval"} THEN Paths \X KPaths
     ELSE {}
 
+ScriptOK(k) ==
+    LET i == Len(hist) + (IF InitAll > 0 /\ Mode = "c15" THEN 0 ELSE 1)
+        sq == IF Script = "store" THEN <<"push", "unary", "rowwrite", "reset">> ELSE << >>
+    IN Script = "none" \/ (i <= Len(sq) /\ k = sq[i])
+
 Select ==
     /\ cls = "none"
     /\ Len(hist) < Depth - 1
-    /\ \E k \in Classes : Enabled(k) /\ cls' = k
+    /\ \E k \in Classes : Enabled(k) /\ ScriptOK(k) /\ cls' = k
     /\ cur' = IF cur.on /\ CurDone THEN NoCur ELSE cur
     /\ UNCHANGED <<db, stack, sub, hist>>
 
